@@ -22,7 +22,7 @@ RULE = ('complete table: case = (entry point, marker placement, pending text, ch
 ASSUMPTIONS = ['part A replaces the transport by a scripted read_nonblocking; part B uses real kernel objects with a virtual clock']
 REQUIRED_FLAGS = {'eof_index': 1, 'eof_raised': 1, 'timeout_index': 1, 'timeout_raised': 1,
                   'pending_beats_marker': 1, 'after_eof_again': 1, 'occurrence_outside_window': 1,
-                  'dead_child_silent_tty': 1}
+                  'dead_child_silent_tty': 1, 'reads_smaller_than_a_character': 1}
 
 M = {'E': EOF, 'T': TIMEOUT}
 PLACEMENTS = [(), ('E',), ('T',), ('E', 'p'), ('p', 'E'), ('T', 'p'), ('p', 'T'), ('p', 'E', 'q'),
